@@ -203,6 +203,20 @@ class Index(object):
         if self.parse_errors:
             raise AnalysisError('cannot parse: %r' % (self.parse_errors,))
 
+    def unimportable(self, mod):
+        """name of a package-internal module that `mod` imports at top level and that does not exist (importing `mod` raises
+        ImportError, so nothing in it can run), else None"""
+        for st in mod.tree.body:
+            names = []
+            if isinstance(st, ast.Import):
+                names = [a.name for a in st.names]
+            elif isinstance(st, ast.ImportFrom) and st.module and not st.level:
+                names = [st.module]
+            for nm in names:
+                if nm.split('.')[0] == PKG and nm not in self.modules:
+                    return nm
+        return None
+
     def digest(self):
         h = hashlib.sha256()
         for n in sorted(self.modules):
